@@ -110,8 +110,10 @@ WHO_GENERATED = {
 
 
 def check_who_runtime(ctx, prog):
+    from .rules_runtime import helper_roots
     util = prog.crate("lexgen_util")
     counts = {}
+    helpers = helper_roots(util)
     for b in util.bodies:
         name = norm_path(b["path"])
         short = name.split("::")[-1]
@@ -120,6 +122,20 @@ def check_who_runtime(ctx, prog):
             continue
         derived = b["from_expansion"]
         is_method = name.startswith("Lexer::")
+        if name in helpers:
+            # a private helper acts on behalf of the specified methods that call it: each access
+            # must be allowed for every one of them
+            for f, mode, span in acc:
+                counts[f] = counts.get(f, 0) + 1
+                for root in sorted(helpers[name]):
+                    rshort = root.split("::")[-1]
+                    ok = rshort not in CT and mode in WHO_RUNTIME.get(f, {}).get(rshort, ())
+                    ctx.ob("R-WHO", "lexgen_util::%s (helper of %s) may %s field %s" % (
+                        name, root, mode, f), ok,
+                        key="R-WHO:lexgen_util::%s:%s:%s" % (root, f, mode), where=span,
+                        detail="allowed accessors of `%s`: %s" % (
+                            f, {k: sorted(v) for k, v in WHO_RUNTIME.get(f, {}).items()}))
+            continue
         for f, mode, span in acc:
             counts[f] = counts.get(f, 0) + 1
             if derived:
